@@ -1,0 +1,7 @@
+//go:build !verif
+// +build !verif
+
+package destination
+
+// verifPoint marks the branches of relay() for the verification harness (build tag verif); a no-op otherwise.
+func (dest *Destination) verifPoint(code byte) {}
